@@ -246,6 +246,22 @@ X86_MOVX = {"movsbl": (1, 4, 1), "movsbw": (1, 2, 1), "movsbq": (1, 8, 1), "movs
             "movslq": (4, 8, 1), "movsxd": (4, 8, 1), "movzbl": (1, 4, 0), "movzbw": (1, 2, 0), "movzbq": (1, 8, 0),
             "movzwl": (2, 4, 0), "movzwq": (2, 8, 0)}
 SUFFIX = {"b": 1, "w": 2, "l": 4, "q": 8}
+# scalar SSE vocabulary of X86.tla (floats / doubles with small integer values): mnemonic -> (record op, GP operand width)
+X86_SSE = {"movss": ("movss", 0), "movsd": ("movsd", 0), "movd": ("movdq", 4),
+           "cvtsi2ssl": ("cvtsi2ss", 4), "cvtsi2ssq": ("cvtsi2ss", 8), "cvtsi2sdl": ("cvtsi2sd", 4), "cvtsi2sdq": ("cvtsi2sd", 8),
+           "cvttss2sil": ("cvttss2si", 4), "cvttss2siq": ("cvttss2si", 8), "cvttsd2sil": ("cvttsd2si", 4), "cvttsd2siq": ("cvttsd2si", 8),
+           "cvtss2sd": ("cvtss2sd", 0), "cvtsd2ss": ("cvtsd2ss", 0),
+           "addss": ("addss", 0), "subss": ("subss", 0), "mulss": ("mulss", 0), "divss": ("divss", 0),
+           "addsd": ("addsd", 0), "subsd": ("subsd", 0), "mulsd": ("mulsd", 0), "divsd": ("divsd", 0)}
+
+
+def sse_operand(a, symaddr):
+    m = re.match(r"^%(xmm\d+)$", a.strip())
+    if m:
+        if m.group(1) not in ("xmm0", "xmm1"):
+            raise Unknown("register %" + m.group(1))
+        return dict(NONE, k="xmm", r=m.group(1), w=16)
+    return operand(a, symaddr)
 
 
 def x86_function(fn, symaddr):
@@ -268,6 +284,14 @@ def x86_function(fn, symaddr):
             out.append(rec); continue
         if op in ("ret", "nop", "mfence", "pause", "cqo", "cqto", "cdq", "cltd"):
             rec["op"] = {"cqto": "cqo", "cltd": "cdq"}.get(op, op)
+            out.append(rec); continue
+        if len(x.args) == 2 and (op in X86_SSE or (op == "movq" and any(a.strip().startswith("%xmm") for a in x.args))):
+            sop, w = X86_SSE.get(op, ("movdq", 8))
+            ops = [sse_operand(a, symaddr) for a in x.args]
+            if sum(1 for o in ops if o["k"] == "xmm") == 0 or any(o["k"] == "reg" and w and o["w"] != w for o in ops) \
+               or any(o["k"] == "imm" for o in ops):
+                raise Unknown("%s: SSE operand form not modelled: %s" % (fn.name, x.raw))
+            rec.update(op=sop, w=w, a=ops[0], b=ops[1])
             out.append(rec); continue
         ops = [operand(a, symaddr) for a in x.args]
         if op in X86_MOVX:
